@@ -6,7 +6,7 @@
     ``len <= capacity``, ``accepted = popped + counted drops + held`` after every operation, every accepted
     item leaves at most once, per-flow / arrival order where the policy keeps it, a final drain returns
     exactly what is held.
-(b) pipelines inside a real Simulation: tagged requests enter (through 0-2 zero-delay relay hops, so that
+(b) pipelines inside a real Simulation: tagged requests enter (through 0-8 zero-delay relay hops, so that
     same-nanosecond arrivals have different causal depth) a queue-fronted component whose queue policy is
     wrapped in a recording proxy (``QueuePolicy`` is a public extension point) and whose service start / end
     is observed from a harness worker or a thin subclass.  Whenever the clock moves (end of an instant) every
@@ -426,18 +426,46 @@ class Track:
 
 
 QTARGETS = ["qd", "qr", "server", "server", "threadpool", "reneging"]
+MAX_HOPS = 8
+# same-nanosecond arrivals through 0-8 zero-delay relay hops; `twin` = h adds a second request on the same instant that
+# travels h hops (pairs {direct, 5-8 hops} are far apart in scheduler steps: the first one's wake-up / poll / delivery /
+# re-check chain has run dry before the second is enqueued)
+HOPS = st.sampled_from([0, 0, 0, 0, 1, 1, 2, 3, 4, 5, 6, 7, 8])
+TWIN = st.sampled_from([0, 0, 0, 0, 5, 6, 7, 8])
+
+
+def expand_arrivals(arrivals, cap=20):
+    """-> list of (arrival dict, index of the arrival whose instant it shares)"""
+    out = []
+    for a in arrivals:
+        if not isinstance(a, dict):
+            continue
+        first = len(out)
+        out.append((a, first))
+        tw = int(a.get("twin", 0) or 0) % (MAX_HOPS + 1)
+        if tw:
+            out.append((dict(a, hops=tw, twin=0), first))
+    return out[:cap]
+
+
+def relay_chain(entry, Relay):
+    chain = [entry]
+    for i in range(1, MAX_HOPS + 1):
+        chain.append(Relay(f"r{i}", chain[-1]))
+    return chain
 
 
 def pipeline_strategy(kinds, safe=False, no_setlimit=False):
     def s(tier):
         big = tier == "thorough"
-        arr = st.fixed_dictionaries({"t": st.sampled_from([0, 0, 0, 1, 2, 2, 3, 4, 6]), "hops": st.integers(0, 2),
+        arr = st.fixed_dictionaries({"t": st.sampled_from([0, 0, 0, 1, 2, 2, 3, 4, 6, 12, 20]), "hops": HOPS, "twin": TWIN,
                                      "prio": st.integers(0, 2), "w": st.integers(1, 3), "pat": st.sampled_from([0, 1, 2, 9])})
         return st.fixed_dictionaries({
             "target": st.sampled_from(kinds), "limit": st.just(1) if safe else st.sampled_from([1, 1, 2, 3]),
             "qcap": st.sampled_from([0, 0, 1, 2, 3]), "policy": st.sampled_from(["fifo", "fifo", "lifo", "priority"]),
             "conc": st.sampled_from(["fixed", "fixed", "dynamic", "weighted"]),
-            "svc": st.lists(st.sampled_from([0, 1, 1, 2, 3, 4]), min_size=1, max_size=5),
+            "svc": st.one_of(st.just([0]), st.lists(st.sampled_from([0, 1, 1, 2, 3, 4]), min_size=1, max_size=5),
+                             st.lists(st.sampled_from([0, 1, 1, 2, 3, 4]), min_size=1, max_size=5)),
             "setlim": st.lists(st.tuples(st.sampled_from([1, 2, 3, 5, 7]), st.integers(1, 4)), max_size=0 if (safe or no_setlimit) else 2),
             "chain": st.booleans(),
             "arrivals": st.lists(arr, min_size=1, max_size=14 if big else 10),
@@ -463,11 +491,12 @@ def pipeline_execute(obl, safe=False, no_setlimit=False):
         svc = [int(x) % 8 for x in (case.get("svc") or [1])] or [1]
         pol = case.get("policy") if case.get("policy") in ("fifo", "lifo", "priority") else "fifo"
         conc = case.get("conc") if (case.get("conc") in ("fixed", "dynamic", "weighted") and kind == "server") else "fixed"
-        arrivals = [a for a in (case.get("arrivals") or []) if isinstance(a, dict)][:16]
+        expanded = expand_arrivals((case.get("arrivals") or [])[:16])
+        arrivals = [a for a, _ in expanded]
         if safe:
-            # restricted domain: one worker slot; arrival i is shifted by i nanoseconds, so no two arrivals share an
-            # instant and (service times being whole ticks) no arrival coincides with a completion - neither of the
-            # two known driver defects can occur
+            # restricted domain: one worker slot; arrival i is shifted by i nanoseconds, so arrivals share an instant only
+            # as generated {direct, far-relay} twins and (service times being whole ticks) no arrival coincides with the
+            # completion of another request
             limit = 1
         clock = [None]
         now = lambda: clock[0].now.nanoseconds          # noqa: E731
@@ -720,9 +749,8 @@ def pipeline_execute(obl, safe=False, no_setlimit=False):
 
             def handle_event(self, event):
                 return [Event(time=self.now, event_type=event.event_type, target=self.nxt, context=event.context)]
-        r1 = Relay("r1", entry)
-        r2 = Relay("r2", r1)
-        ents += [r1, r2]
+        chain = relay_chain(entry, Relay)
+        ents += chain[1:]
 
         class Ctl(Entity):
             def handle_event(self, event):
@@ -740,7 +768,7 @@ def pipeline_execute(obl, safe=False, no_setlimit=False):
         arr_t = {}
         for rid, a in enumerate(arrivals):
             t = int(a.get("t", 0)) % 64
-            at = t * TICK + (rid if safe else 0)
+            at = t * TICK + (expanded[rid][1] if safe else 0)
             arr_t[rid] = at
             ctx = {"rid": rid, "prio": int(a.get("prio", 0)) % 3}
             if conc == "weighted":
@@ -749,7 +777,7 @@ def pipeline_execute(obl, safe=False, no_setlimit=False):
                 ctx["created_at"] = Instant(at)
                 pat = int(a.get("pat", 9)) % 10
                 ctx["patience_s"] = ticks(pat) if pat < 9 else float("inf")
-            sim.schedule(Event(time=Instant(at), event_type="req", target=[entry, r1, r2][int(a.get("hops", 0)) % 3], context=ctx))
+            sim.schedule(Event(time=Instant(at), event_type="req", target=chain[int(a.get("hops", 0)) % (MAX_HOPS + 1)], context=ctx))
         if kind == "server" and conc == "dynamic":
             for t, n in (case.get("setlim") or [])[:3]:
                 sim.schedule(Event(time=Instant((int(t) % 16) * TICK), event_type="set", target=ctl, context={"n": 1 + (int(n) - 1) % 4}))
@@ -820,7 +848,10 @@ def pipeline_execute(obl, safe=False, no_setlimit=False):
                 if seq != adm:
                     bad("misordered/fifo-single-slot", f"completion order {seq} admission order {adm}")
         same = len({a_t for a_t in arr_t.values()}) < len(arr_t)
-        hops = {int(a.get("hops", 0)) % 3 for a in arrivals}
+        hops = {int(a.get("hops", 0)) % (MAX_HOPS + 1) for a in arrivals}
+        if any(abs(int(a.get("hops", 0)) % (MAX_HOPS + 1) - int(b.get("hops", 0)) % (MAX_HOPS + 1)) >= 5
+               for i, a in enumerate(arrivals) for j, b in enumerate(arrivals) if i < j and arr_t[i] == arr_t[j]):
+            r.labels.append("same-instant-hop-gap>=5")
         fin_t = {s.get("sink_t") for s in T.st.values() if s.get("sink_t") is not None}
         r.nontrivial = (same and len(hops) > 1) or bool(fin_t & set(arr_t.values())) or "limit-changed" in T.labels
         r.labels += [kind] + sorted(T.labels)
@@ -833,7 +864,7 @@ def pipeline_execute(obl, safe=False, no_setlimit=False):
 # =========================================================================================== industrial variants
 def industrial_strategy(tier):
     big = tier == "thorough"
-    arr = st.fixed_dictionaries({"t": st.sampled_from([0, 0, 0, 1, 2, 2, 3, 4, 6, 9]), "hops": st.integers(0, 2)})
+    arr = st.fixed_dictionaries({"t": st.sampled_from([0, 0, 0, 1, 2, 2, 3, 4, 6, 9, 14]), "hops": HOPS, "twin": TWIN})
     return st.fixed_dictionaries({
         "target": st.sampled_from(["shifted", "shifted", "pooled", "pooled", "batch", "conveyor", "gate"]),
         "n": st.integers(1, 3), "qcap": st.sampled_from([0, 0, 1, 2]), "svc": st.sampled_from([0, 1, 2, 3]),
@@ -853,7 +884,7 @@ def industrial_execute(case):
     qcap = int(case.get("qcap", 0)) % 4
     svc = int(case.get("svc", 1)) % 8
     tmo = int(case.get("tmo", 0)) % 8
-    arrivals = [a for a in (case.get("arrivals") or []) if isinstance(a, dict)][:16]
+    arrivals = [a for a, _ in expand_arrivals((case.get("arrivals") or [])[:16])]
     seen = {}
     order = []
 
@@ -932,14 +963,13 @@ def industrial_execute(case):
 
         def handle_event(self, event):
             return [Event(time=self.now, event_type=event.event_type, target=self.nxt, context=event.context)]
-    r1 = Relay("r1", comp)
-    r2 = Relay("r2", r1)
-    sim = Simulation(entities=[comp, sink, r1, r2], end_time=Instant(400 * TICK))
+    chain = relay_chain(comp, Relay)
+    sim = Simulation(entities=[comp, sink] + chain[1:], end_time=Instant(400 * TICK))
     arr_t = {}
     for rid, a in enumerate(arrivals):
         t = int(a.get("t", 0)) % 16
         arr_t[rid] = t * TICK
-        sim.schedule(Event(time=Instant(t * TICK), event_type="req", target=[comp, r1, r2][int(a.get("hops", 0)) % 3], context={"rid": rid}))
+        sim.schedule(Event(time=Instant(t * TICK), event_type="req", target=chain[int(a.get("hops", 0)) % (MAX_HOPS + 1)], context={"rid": rid}))
     for e in extra:
         sim.schedule(e)
     waited = [False]
@@ -1041,7 +1071,7 @@ def industrial_execute(case):
 
 
 # =========================================================================================== obligations
-RULE_PIPE = ("1-10 tagged requests (thorough 14) at ticks 0-6 (bursts on one ns) entering directly or through 1-2 zero-delay relay hops; "
+RULE_PIPE = ("1-10 tagged requests (thorough 14) at ticks 0-6 (bursts on one ns) entering directly or through 1-8 zero-delay relay hops (biased towards {direct, 5-8 hops} twins on one nanosecond, also with zero service time and an idle target); "
              "worker limit 1-3, queue capacity none/1-3, policy fifo/lifo/priority, scripted service 0-4 ticks so completions coincide with "
              "arrivals; Server with Fixed/Dynamic(set_limit events)/Weighted concurrency; non-trivial = a burst arriving through paths of "
              "different hop counts, or an arrival on the instant of a completion, or a limit change")
@@ -1061,10 +1091,10 @@ OBLIGATIONS = [
                "constant limit), so the open finding 'raised limit does not wake the driver' cannot occur; same clauses, same non-trivial rule"),
     Obligation("qd-safe", pipeline_strategy(["qd", "qr", "server", "threadpool"], safe=True), pipeline_execute("qd-safe", safe=True),
                {"quick": 600, "thorough": 20000},
-               "restricted domain without exclusions: one worker slot, at most one arrival per instant (odd ticks), even service times so that "
-               "no arrival coincides with a completion - neither known driver defect (free slot not polled, stale capacity) can occur"),
+               "restricted domain without exclusions: one worker slot, arrival i shifted by i ns so that arrivals share an instant only as generated "
+               "{direct, 5-8 relay hops} twins and no arrival coincides with the completion of another request"),
     Obligation("industrial", industrial_strategy, industrial_execute, {"quick": 1500, "thorough": 60000},
                "ShiftedServer (1-3 shift windows with capacity 0-3, default 0-2), PooledCycleResource, BatchProcessor (size 1-3, time-out), "
-               "ConveyorBelt, GateController (schedule, initially open/closed) with 1-10 requests through 0-2 relay hops; non-trivial = "
+               "ConveyorBelt, GateController (schedule, initially open/closed) with 1-10 requests through 0-8 relay hops; non-trivial = "
                "something waited"),
 ]
